@@ -10,7 +10,13 @@ recorded per run and replayed through the Lean models:
     task reads must be the head of the model's shared inbox, and the outcome per caller must be the model's.
 
 Every caller must end with a reply that is not foreign to its request BYTES (Spec/Reply.lean) or with an error, and
-nobody may be left waiting forever."""
+nobody may be left waiting forever.
+
+Callers use the whole public surface: read_data_by_identifier, send_raw, ping(), tester_present() and every other public
+method with a `suppress_response` option (option off and on; arguments synthesised from the signature, request bytes learnt
+from a dry run).  Connection attempts of the scripted wire follow a script and then a default, so the target can refuse k
+times and then accept, or stay away for good; BaseTransport.reconnect(timeout) itself is also compared with
+Model/TransportReconnect.lean on every short outcome stream."""
 import asyncio
 import itertools
 from collections import deque
@@ -40,6 +46,12 @@ ASSUMPTIONS = [
     "through another name, by getattr or from another module is outside the table (the dynamic tie still sees its effect)",
     "the transport's own mutex (BaseTransport.reconnect / request) is only taken inside the client lock; the tie runs the real BaseTransport.reconnect, "
     "the model has one lock",
+    "callers reach the client through its public coroutine methods only (typed services with their options incl. suppress_response, ping(), send_raw(), "
+    "reconnect(), wait_for_ecu(), start / stop of the worker); arguments of the sub-function services are synthesised from the signatures, a method "
+    "that refuses them before sending anything is not a user of the client in that case",
+    "an unreachable target is a connect() that raises ConnectionRefusedError (also TimeoutError / OSError) on the scripted wire; one connection attempt "
+    "takes 50 virtual ms; 'never returns' means: not within 120 virtual seconds after the call (the harness cap), which for the modelled loop "
+    "(reconnect_bounded: at most timeout/100 ms + 1 attempts) is far beyond every deadline used",
     "the scripted wire keeps its inbox across reconnect() (a late reply may arrive on the new connection): the adversarial choice; the model's network "
     "may deliver any message at any time anyway",
 ]
@@ -229,6 +241,7 @@ class Net:
         self.nwrites = {}
         self.rc_script = list(rc_script)
         self.nconnect = 0
+        self.rc_default = "o"  # outcome of every connection attempt after the scripted ones ("C": the target stays away)
 
     def deliver(self, item):
         if isinstance(item, str):
@@ -254,7 +267,7 @@ def make_wire(tr, net):
             await tr.orig_sleep(0.05)
             k = net.nconnect
             net.nconnect += 1
-            res = net.rc_script[k] if k < len(net.rc_script) else "o"
+            res = net.rc_script[k] if k < len(net.rc_script) else net.rc_default
             i = tr.tid()
             if i is not None:
                 r = tr.cur_round(i)
@@ -351,8 +364,9 @@ def reply_script(kind, pdu):
         pos = bytes([0x62, pdu[1], pdu[2], 0xAB])
         other = bytes([0x62, pdu[1], pdu[2] ^ 0x80, 0xCD])
     else:
-        pos = bytes([pdu[0] + 0x40]) + pdu[1:2]
-        other = bytes([pdu[0] + 0x41]) + pdu[1:2]
+        # positive reply of a sub-function service: the sub-function is echoed WITHOUT the suppressPosRspMsgIndication bit, then the identifier
+        pos = bytes([(pdu[0] + 0x40) & 0xFF]) + bytes([b & 0x7F for b in pdu[1:2]]) + pdu[2:4]
+        other = bytes([(pdu[0] + 0x41) & 0xFF]) + pdu[1:2]
     sid = pdu[0]
     pend = bytes([0x7F, sid, 0x78])
     table = {
@@ -376,6 +390,100 @@ def reply_script(kind, pdu):
 OLD_KINDS = ["imm", "pend", "timeout", "late", "error", "neg"]
 NEW_KINDS = ["slow", "eof", "busy", "penderr", "foreign", "wfaultC", "wfaultT"]
 RETRYABLE = ("timeout", "late", "error", "eof", "busy", "penderr", "wfaultC", "wfaultT")
+
+
+# ---------------------------------------------------------------------------- the public service methods and their options
+# api of a call: "typed" (read_data_by_identifier), "raw" (send_raw), "ping" (ECU.ping), or "svc:<method>:<0|1>": any public coroutine method
+# of the client that has a `suppress_response` option, called with that option off / on; the other arguments are synthesised from the
+# signature (ints and bytes from the call's number), the request bytes are learnt from a dry run on a throw-away client.
+
+_SVC_CACHE = {}
+_PDU_CACHE = {}
+
+
+def svc_methods():
+    """names of the public coroutine methods of ECU with a `suppress_response` parameter whose other parameters can be synthesised"""
+    if "names" not in _SVC_CACHE:
+        import inspect
+        from gallia.services.uds.ecu import ECU
+        names = []
+        for name, fn in inspect.getmembers(ECU, inspect.iscoroutinefunction):
+            if name.startswith("_") or not {"suppress_response", "config"} <= set(inspect.signature(fn).parameters):
+                continue
+            if svc_args(name, 0x1235) is not None:
+                names.append(name)
+        _SVC_CACHE["names"] = sorted(names)
+    return _SVC_CACHE["names"]
+
+
+def svc_args(name, did):
+    import inspect
+    from gallia.services.uds.ecu import ECU
+    kw = {}
+    for n, p in inspect.signature(getattr(ECU, name)).parameters.items():
+        if n in ("self", "config", "suppress_response") or p.default is not inspect.Parameter.empty:
+            continue
+        a = str(p.annotation)
+        if "int" in a:
+            kw[n] = (did & 0x3F) | 1
+        elif "bytes" in a:
+            kw[n] = bytes([did & 0xFF])
+        elif "bool" in a:
+            kw[n] = False
+        else:
+            return None
+    return kw
+
+
+def invoke(client, api, did, pdu, cfg):
+    """the coroutine of one call through the public API"""
+    if api == "raw":
+        return client.send_raw(pdu, config=cfg)
+    if api == "typed":
+        return client.read_data_by_identifier(did, config=cfg)
+    if api == "ping":
+        return client.ping(config=cfg)
+    _, name, sup = api.split(":")
+    return getattr(client, name)(**svc_args(name, did), suppress_response=(sup == "1"), config=cfg)
+
+
+async def call_pdu(api, did):
+    """request bytes of the call: known for typed / raw, otherwise the first transmission of a dry run on a throw-away client (no lock, no
+    tracer involved; must run before asyncio.sleep / create_task are instrumented)"""
+    if api in ("typed", "raw"):
+        return did_pdu(did)
+    key = (api, did)
+    if key not in _PDU_CACHE:
+        from gallia.services.uds.core.client import UDSRequestConfig
+        from gallia.services.uds.ecu import ECU
+        from gallia.transports.base import BaseTransport, TargetURI
+
+        class Dry(BaseTransport, scheme="dry"):
+            def __init__(self):
+                super().__init__(TargetURI("dry://x"))
+                self.w = []
+
+            @classmethod
+            async def connect(cls, target, timeout=None):
+                return cls()
+
+            async def close(self):
+                pass
+
+            async def write(self, data, timeout=None, tags=None):
+                self.w.append(bytes(data))
+                return len(data)
+
+            async def read(self, timeout=None, tags=None):
+                raise TimeoutError("dry")
+
+        d = Dry()
+        try:
+            await invoke(ECU(d, timeout=0.01, max_retry=0), api, did, b"", UDSRequestConfig(max_retry=0))
+        except Exception:
+            pass
+        _PDU_CACHE[key] = d.w[0] if d.w else None
+    return _PDU_CACHE[key]
 
 
 def classify_exc(e, G):
@@ -411,6 +519,12 @@ async def scenario(spec, cancel_at):
     scripts_by_pdu = {}
     wscripts = list(spec.get("worker_scripts") or ["imm"])
 
+    pdus = {}
+    for d in spec["tasks"]:
+        if d[0] == "req":
+            for api, did, _script, _m in d[2]:
+                pdus[(api, did)] = await call_pdu(api, did)
+
     def plan(pdu, k):
         if pdu == b"\x3e\x00":
             kind = wscripts[min(k, len(wscripts) - 1)]
@@ -422,6 +536,7 @@ async def scenario(spec, cancel_at):
         return reply_script(kind, pdu)
 
     net = Net(tr, plan, spec.get("rc", ""))
+    net.rc_default = spec.get("rc_default") or "o"
     wire = make_wire(tr, net)
     ecu = ECU(wire, timeout=TIMEOUT, max_retry=0)
     ecu.mutex = make_lock(tr)
@@ -468,17 +583,16 @@ async def scenario(spec, cancel_at):
         results[i] = []
         await orig_sleep(offset)
         for api, did, script, max_retry in calls:
-            pdu = did_pdu(did)
+            pdu = pdus[(api, did)]
+            if pdu is None:  # the method refuses the synthesised arguments before anything is sent: not a call
+                continue
             r = tr.begin_round(i, ("R", pdu.hex(), ms(TIMEOUT), 0, None, max_retry))
             n = len(tr.rounds[i]) - 1
             reqs[(i, n)] = pdu
             cfg = UDSRequestConfig(max_retry=max_retry)
             try:
-                if api == "raw":
-                    resp = await ecu.send_raw(pdu, config=cfg)
-                else:
-                    resp = await ecu.read_data_by_identifier(did, config=cfg)
-                results[i].append((n, ("reply", resp.pdu.hex())))
+                resp = await invoke(ecu, api, did, pdu, cfg)
+                results[i].append((n, ("reply", resp.pdu.hex()) if resp is not None else ("none",)))
             except asyncio.CancelledError:
                 results[i].append((n, ("cancelled",)))
                 raise
@@ -558,9 +672,12 @@ async def scenario(spec, cancel_at):
         for d in spec["tasks"]:
             if d[0] == "req":
                 for api, did, script, _m in d[2]:
-                    scripts_by_pdu[did_pdu(did)] = script
+                    if pdus[(api, did)] is not None:
+                        scripts_by_pdu[pdus[(api, did)]] = script
         tasks = []
         for d in spec["tasks"]:
+            if d[0] == "req" and all(pdus[(api, did)] is None for api, did, _s, _m in d[2]):
+                continue  # every call of this task is refused by the method itself before anything is sent: not a user of the client
             if d[0] == "req":
                 tasks.append(asyncio.ensure_future(caller(d[1], d[2])))
             elif d[0] == "wfe":
@@ -569,6 +686,8 @@ async def scenario(spec, cancel_at):
                 tasks.append(asyncio.ensure_future(reconnecter(d[1])))
         done, pending = await asyncio.wait(tasks, timeout=120) if tasks else (set(), set())
         stuck = len(pending)
+        stuck_tids = sorted(tr.ids[t] for t in pending if t in tr.ids)
+        lock_at_cap = (tr.holder, sorted(tr.waiting))
         for t in pending:
             tr.cancel_task(t)
         callers_done.set()
@@ -587,6 +706,7 @@ async def scenario(spec, cancel_at):
         asyncio.sleep = orig_sleep
         asyncio.create_task = orig_create_task
     return {"events": tr.events, "sched": tr.sched, "rounds": tr.rounds, "results": results, "reqs": reqs, "stuck": stuck,
+            "stuck_tids": stuck_tids, "lock_at_cap": lock_at_cap,
             "count": dict(tr.count), "workers": sorted(tr.worker_tids), "misuse": tr.misuse, "auto": sorted(tr.auto)}
 
 
@@ -697,6 +817,45 @@ def gen_specs(ctx):
                                   "worker": tpw, "worker_scripts": ws, "rc": "o"})
     ctx.exhaustive_parts.append("ECU.wait_for_ecu() (stop worker, ping every 0.5 s, reconnect() through the lock after a lost connection, restart "
                                 "worker) x 5 ping scripts x 4 competing caller scripts x worker on/off x 2 offsets")
+    # (3c) the public service methods with their non-default options next to an exchange in flight: tester_present(suppress_response=True /
+    # False), ping(), and every public method with a `suppress_response` option (both values), called by a keep-alive task K while the exchange of
+    # A is open (request written, final reply not yet delivered - incl. a ResponsePending extension), plus a third caller C
+    tp_apis = ["svc:tester_present:1", "svc:tester_present:0", "ping"]
+    for a in ("pend", "slow", "late", "imm"):
+        for kapi in tp_apis:
+            for ks in ("timeout", "neg", "imm"):
+                for koff in (0.0, 0.05, 0.5):
+                    for tpw in (False, True):
+                        did[0] = 0x1400
+                        specs.append({"tasks": [("req", 0.0, [call(a, 0)]), ("req", koff, [call(ks, 0, kapi)]), ("req", 0.1, [call("imm", 0)])],
+                                      "worker": tpw, "worker_scripts": [ks, "imm"]})
+    for name in svc_methods():
+        for sup in (0, 1):
+            for a in ("pend", "slow"):
+                did[0] = 0x1480
+                ks = "timeout" if sup else "imm"
+                specs.append({"tasks": [("req", 0.0, [call(a, 0)]), ("req", 0.05, [call(ks, 0, f"svc:{name}:{sup}")]), ("req", 0.1, [call("imm", 0)])],
+                              "worker": False})
+    ctx.exhaustive_parts.append("public service options next to an exchange in flight: first caller {pending, slow, late, immediate} x keep-alive caller "
+                                "{tester_present(suppress_response=True), tester_present(), ping()} x its reply {silence, negative, positive} x 3 "
+                                "arrival offsets x worker on/off x a third caller; every public method with a suppress_response option "
+                                f"({len(svc_methods())} methods) x option off/on x first caller {{pending, slow}}")
+    # (3d) reconnects against a target whose connect FAILS: refused k times then accepted, refused forever; explicit reconnect() and the automatic
+    # reconnect of a request with max_retry > 0 after a lost connection; a second user shares the client (and the worker)
+    for rc, rcd in (("C", "o"), ("CC", "o"), ("CCC", "o"), ("", "C"), ("o", "C"), ("T", "C"), ("O", "C")):
+        for b in ("imm", "pend", "timeout"):
+            for tpw in (False, True):
+                did[0] = 0x1500
+                specs.append({"tasks": [("reconnect", 0.0), ("req", 0.05, [call(b, 0)])], "worker": tpw, "rc": rc, "rc_default": rcd})
+                for a in ("error", "eof", "wfaultC", "penderr"):
+                    for m in (1, 2):
+                        if tpw and m == 2:
+                            continue
+                        did[0] = 0x1500
+                        specs.append({"tasks": [("req", 0.0, [call(a, m)]), ("req", 0.05, [call(b, 0)])], "worker": tpw, "rc": rc, "rc_default": rcd})
+    ctx.exhaustive_parts.append("unreachable target: connect refused 1..3 times then accepted / refused forever (also after one success, a timeout, an "
+                                "OSError) x {explicit reconnect(), automatic reconnect of a request with max_retry 1, 2 after read error / end of stream / "
+                                "write fault / loss while pending} x second caller {immediate, pending, timeout} x worker on/off")
     # (4) 3..5 tasks sampled, two calls per task possible
     allk = OLD_KINDS + NEW_KINDS
     for _ in range(ctx.pick(300, 1500)):
@@ -719,6 +878,27 @@ def gen_specs(ctx):
         specs.append({"tasks": ts, "worker": worker or rng.random() < 0.3,
                       "worker_scripts": [rng.choice(["imm", "imm", "timeout", "error", "neg", "wfaultC"]) for _ in range(3)],
                       "rc": "".join(rng.choice("oooC") for _ in range(4))})
+    # (5) the same sampling over the whole public surface: any service method with its suppress_response option on or off, ping(), requests with
+    # retries, explicit reconnects, a target that may stay away
+    svc = svc_methods()
+    for _ in range(ctx.pick(150, 1000)):
+        n = rng.randint(2, 4)
+        did[0] = 0x3000
+        ts = [("req", 0.0, [call(rng.choice(["pend", "slow", "late", "imm", "penderr"]), rng.choice([0, 0, 1]))])]
+        for i in range(n):
+            r = rng.random()
+            off = rng.choice([0.0, 0.02, 0.05, 0.3, 0.5, 0.9])
+            if r < 0.4:
+                api = rng.choice(tp_apis)
+                ts.append(("req", off, [call(rng.choice(["timeout", "timeout", "neg", "imm", "pend"]), rng.choice([0, 0, 1]), api)]))
+            elif r < 0.8:
+                sup = rng.choice([0, 1])
+                ts.append(("req", off, [call(rng.choice(["timeout", "neg", "imm", "pend", "error"]) if sup else rng.choice(allk),
+                                             rng.choice([0, 0, 1]), f"svc:{rng.choice(svc)}:{sup}")]))
+            else:
+                ts.append(("reconnect", off))
+        specs.append({"tasks": ts, "worker": rng.random() < 0.4, "worker_scripts": [rng.choice(["imm", "timeout", "neg"]) for _ in range(2)],
+                      "rc": "".join(rng.choice("ooC") for _ in range(rng.randint(0, 3))), "rc_default": rng.choice("oooC")})
     return specs
 
 
@@ -750,6 +930,7 @@ def run(ctx):
                                 "backoff sleep, reconnect, interval sleep) for the covered task sets")
 
     infos, _outs = evaluate(ctx, cases)
+    run_transport_reconnect(ctx)
     ctx.traces_validated += 2 * len(infos)
     if infos:
         for k in (0, len(infos) // 2, -1):
@@ -772,8 +953,12 @@ def evaluate(ctx, cases):
             continue
         events = r["events"]
         if r["stuck"]:
-            ctx.disagree("conc:caller-blocked-forever", f"{r['stuck']} caller(s) still blocked 120 virtual seconds after everybody else finished",
-                         case, impl=_fmt(events)[-600:], spec_violated=True, site="UDSClient._request / reconnect (lock not released?)")
+            holder, waiting = r["lock_at_cap"]
+            ctx.disagree("conc:caller-blocked-forever",
+                         f"{r['stuck']} caller(s) (tasks {r['stuck_tids']}) got neither a reply nor an error within 120 virtual seconds; at that time the "
+                         f"client lock was held by task {holder} and waited for by {waiting}; schedule starts: " + " ".join(r["sched"][:24])
+                         + " ... ends: " + " ".join(r["sched"][-8:]),
+                         {**case, "sched_head": " ".join(r["sched"][:60])}, impl=_fmt(events)[-600:], spec_violated=True, site="UDSClient._request / reconnect (lock not released?)")
             continue
         ml, tids = model_lines(r)
         start = len(lines)
@@ -938,6 +1123,97 @@ def judge_multi(ctx, case, r, mo, tids):
                                  spec_violated=False)
 
 
+# ------------------------------------------------------------------ BaseTransport.reconnect(timeout) against a target whose connect fails
+
+RC_CONNECT = 0.05
+RC_CAP = 120.0
+
+
+async def rc_scenario(timeout, outs, dflt):
+    """the real BaseTransport.reconnect(timeout) over a transport whose k-th connection attempt ends as scripted (o accepted, C refused,
+    T TimeoutError, O OSError; `dflt` for every later one) -> (result, completed attempts, elapsed virtual ms); capped at RC_CAP virtual seconds"""
+    from gallia.transports.base import BaseTransport, TargetURI
+    st = {"n": 0}
+
+    class Flaky(BaseTransport, scheme="flaky"):
+        @classmethod
+        async def connect(cls, target, timeout=None):
+            await asyncio.sleep(RC_CONNECT)
+            k = st["n"]
+            st["n"] += 1
+            res = outs[k] if k < len(outs) else dflt
+            if res == "C":
+                raise ConnectionRefusedError("scripted")
+            if res == "T":
+                raise TimeoutError("scripted")
+            if res == "O":
+                raise OSError(113, "scripted: no route to host")
+            return cls(target if not isinstance(target, str) else TargetURI(target))
+
+        async def close(self):
+            self.is_closed = True
+
+        async def write(self, data, timeout=None, tags=None):
+            raise NotImplementedError
+
+        async def read(self, timeout=None, tags=None):
+            raise NotImplementedError
+
+    t = Flaky(TargetURI("flaky://target"))
+    loop = asyncio.get_event_loop()
+    t0 = loop.time()
+    task = asyncio.ensure_future(t.reconnect(timeout))
+    _done, pending = await asyncio.wait([task], timeout=RC_CAP)
+    if pending:
+        task.cancel()
+        await asyncio.wait([task])
+        return ("never-returns", st["n"], ms(RC_CAP))
+    el = ms(loop.time() - t0)
+    try:
+        task.result()
+        return ("connected", st["n"], el)
+    except ConnectionError:
+        return ("C", st["n"], el)
+    except TimeoutError:
+        return ("T", st["n"], el)
+    except OSError:
+        return ("O", st["n"], el)
+    except Exception as e:
+        return ("exc:" + type(e).__name__, st["n"], el)
+
+
+def run_transport_reconnect(ctx):
+    """every outcome stream of length <= 3 over {accepted, refused, TimeoutError, OSError} x what follows {accepted, refused forever} x
+    timeout {None (what the client passes), 5 deadlines}: result, number of attempts and elapsed time must be the model's"""
+    cases = []
+    for tmo in (None, 0.12, 0.25, 0.52, 1.01, 1.99):  # deadlines that do not coincide with the end of an attempt or of a retry sleep
+        for dflt in "oC":
+            for n in range(4):
+                for outs in itertools.product("oCTO", repeat=n):
+                    cases.append((tmo, "".join(outs), dflt))
+    lines = [f"trc {'none' if t is None else ms(t)} {ms(RC_CONNECT)} {d} {o or '-'}" for t, o, d in cases]
+    out = ctx.lean(lines)
+    for (tmo, outs, dflt), mo in zip(cases, out):
+        ctx.ev()
+        ctx.kind("transport-reconnect", "no-timeout" if tmo is None else "deadline")
+        case = {"transport_reconnect": {"timeout": tmo, "outcomes": outs, "later": dflt, "connect_s": RC_CONNECT}}
+        try:
+            impl, _vt = vrun(rc_scenario(tmo, outs, dflt), horizon=1e5)
+        except Stall as e:
+            impl = ("stall", 0, 0)
+        m = mo.split()
+        model = ("T" if m[0] == "deadline" else m[0], int(m[1]), int(m[2])) if len(m) == 3 and m[1].isdigit() else (mo, 0, 0)
+        if tuple(impl) != model:
+            ctx.disagree(f"reconnect:transport:{impl[0]}-where-model-{model[0]}",
+                         f"BaseTransport.reconnect(timeout={tmo}) against connection outcomes {outs or '-'} then {dflt} forever (one attempt takes "
+                         f"{RC_CONNECT}s): real code -> {impl} (result, attempts, ms; capped at {RC_CAP:.0f} virtual seconds), model -> {model} "
+                         f"[{mo}]", case, impl=list(impl), model=mo, spec_violated=False, site="BaseTransport.reconnect vs Model/TransportReconnect.lean")
+        ctx.nontrivial(f"trc {tmo} {outs} {dflt}")
+    ctx.traces_validated += len(cases)
+    ctx.exhaustive_parts.append("BaseTransport.reconnect(timeout): every connection-outcome stream of length <= 3 over {accepted, refused, TimeoutError, "
+                                "OSError} x {accepted, refused forever} afterwards x timeout {None, 0.12, 0.25, 0.52, 1.01, 1.99 s}: result, attempts, time")
+
+
 def search(ctx):
     ctx.widened = True
     run(ctx)
@@ -972,7 +1248,8 @@ def _spec_from_json(sp):
 
 def _fmt_task(d):
     if d[0] == "req":
-        calls = ", ".join(f"{api} {did_pdu(did).hex()} script={script} max_retry={mr}" for api, did, script, mr in d[2])
+        calls = ", ".join(f"{api} {did_pdu(did).hex() if api in ('typed', 'raw') else '(arguments from %#x)' % did} script={script} max_retry={mr}"
+                          for api, did, script, mr in d[2])
         return f"caller at +{d[1]}s: {calls}"
     return {"wfe": "wait_for_ecu()", "reconnect": "reconnect()"}.get(d[0], d[0]) + f" at +{d[1]}s"
 
@@ -991,11 +1268,29 @@ def replay(ctx, payload):
     if finding is None:
         return int(replaylib.obligations(mod, payload))
     case = finding["case"]
+    if "transport_reconnect" in case:
+        tc = case["transport_reconnect"]
+        tmo, outs, dflt = tc["timeout"], tc["outcomes"], tc["later"]
+        print(f"case    : BaseTransport.reconnect(timeout={tmo}); connection attempts end as {outs or '-'} (o accepted, C refused, T TimeoutError, "
+              f"O OSError), every later one as {dflt}; one attempt takes {RC_CONNECT}s")
+        try:
+            impl, _vt = vrun(rc_scenario(tmo, outs, dflt), horizon=1e5)
+        except Stall as e:
+            impl = ("stall", 0, 0)
+        mo = ctx.lean([f"trc {'none' if tmo is None else ms(tmo)} {ms(RC_CONNECT)} {dflt} {outs or '-'}"])[0]
+        print(f"impl : (result, completed attempts, elapsed virtual ms) = {tuple(impl)}   [capped at {RC_CAP:.0f} virtual seconds]")
+        print(f"model: {mo}")
+        m = mo.split()
+        model = ("T" if m[0] == "deadline" else m[0], int(m[1]), int(m[2])) if len(m) == 3 and m[1].isdigit() else (mo, 0, 0)
+        if tuple(impl) != model:
+            ctx.disagree(f"reconnect:transport:{impl[0]}-where-model-{model[0]}", f"real code -> {tuple(impl)}, model -> {model}", case,
+                         impl=list(impl), model=mo, spec_violated=False, site="BaseTransport.reconnect vs Model/TransportReconnect.lean")
+        return replaylib.verdict(ctx, finding, _clause)
     spec = _spec_from_json(case["spec"])
     cancel_at = tuple(case["cancel_at"]) if case.get("cancel_at") else None
     print("case    : " + "; ".join(_fmt_task(d) for d in spec["tasks"]))
     print(f"          tester-present worker: {'on, ping scripts ' + str(spec.get('worker_scripts') or ['imm']) if spec.get('worker') else 'off'}"
-          f"; reconnect outcomes: {spec.get('rc') or '-'}; "
+          f"; reconnect outcomes: {spec.get('rc') or '-'}, every later connection attempt: {spec.get('rc_default') or 'o'}; "
           + (f"task {cancel_at[0]} cancelled at its instrumented await no. {cancel_at[1]}" if cancel_at else "no cancellation"))
     infos, outs = evaluate(ctx, [(spec, cancel_at)])
     if infos:
@@ -1054,7 +1349,13 @@ MANIFEST = {
                    "wait_for_ecu()) under virtual time; every completed await point must be the next step of that task's program in the model "
                    "(requestX over the results the task observed), every message read must be the head of the model's inbox, the outcome per "
                    "caller must be the model's; independently of the model each caller must get a reply genuine to its request BYTES or an error, "
-                   "no task may transmit while another task's exchange is open on the wire, and nobody may stay blocked."),
+                   "no task may transmit while another task's exchange is open on the wire, and nobody may stay blocked. The callers cover the "
+                   "public surface: tester_present / ping and every public method with a suppress_response option (off and on) next to an exchange "
+                   "in flight (incl. a ResponsePending extension). Reconnects run against a target that refuses k times and then accepts or stays "
+                   "away for good (explicit reconnect() and the automatic reconnect of a retried request, with a second user and the worker); "
+                   "Model/TransportReconnect.lean models BaseTransport.reconnect(timeout) - one attempt without a timeout, a 100 ms retry loop under a "
+                   "deadline - with reconnect_without_timeout_single_attempt, reconnect_bounded, reconnect_unreachable_target_fails for every stream "
+                   "of connection outcomes, compared with the real method on all outcome streams of length <= 3 x 6 timeouts."),
     "level_note": ("Partial: the theorems hold for every schedule, the tie only observes the schedules the harness provokes; cancellation is atomic "
                    "in the model. Trusted: Lean kernel, asyncio.Lock / Task.cancel semantics (re-checked by the replay), the harness "
                    "instrumentation (lock subclass, scripted wire with one inbox, patched asyncio.sleep / create_task / stop_cyclic_tester_present)."),
